@@ -606,8 +606,8 @@ def cases(tier, seed):
         add("enlg.ns_ge_unent", dict(par), "enlg.ns/named/%s" % name)
         add("enlg.qlb_le_ns", dict(par, seed=seed), "enlg.qlb/named/%s" % name)
         for what in ("unent", "npa", "ns"):
-            if name == "chsh" and what == "ns":
-                continue
+            if name == "chsh" and what == "ns" or name == "bb84-relabelled":
+                continue  # the relabelled game is judged by the brute-force clauses; closed forms only for the documented games
             add("enlg.closed", dict(par, what=what), "enlg.closed/%s/%s" % (name, what))
     # shapes (R, A, B, X, Y); A**X * B**Y <= 2000
     shapes = [
@@ -635,9 +635,13 @@ def cases(tier, seed):
                 for k in ks:
                     add("enlg.npa_ge_unent", dict(par, k=k), "enlg.npa/%s/%s" % (ans, fld), nt)
                     add("enlg.npa_le_ns", dict(par, k=k), "enlg.npa/%s/%s" % (ans, fld), nt)
-                if (i % 2 == 0 or thorough) and not heavy:
-                    add("enlg.npa_ge_qlb", dict(par, k=1), "enlg.npa/%s/%s" % (ans, fld), nt)
-                    add("enlg.qlb_le_ns", dict(par), "enlg.qlb/%s/%s" % (ans, fld), nt)
+                # the see-saw is exercised on every shape class; it is compared with NPA only where it can run at all
+                # (referee dimension == number of Bob's answers), so that a failure of one is not booked on the other
+                rb = "R=B" if R == B else "R!=B"
+                if not heavy and (s == 0 or thorough):
+                    add("enlg.qlb_le_ns", dict(par), "enlg.qlb/%s/%s" % (rb, fld), nt)
+                    if R == B:
+                        add("enlg.npa_ge_qlb", dict(par, k=1), "enlg.npa/%s/%s" % (ans, fld), nt)
 
     # ------------------------------------------------------------------ hedging
     hedge_bounds = ["hedge.%s.%s" % (w, d) for w in _HEDGE_METHODS for d in ("ge", "le")]
@@ -649,7 +653,7 @@ def cases(tier, seed):
             for form in ("primal", "dual"):
                 add("hedge.max_ge_min", dict(par, form=form), "hedge/molina-watrous/n=%d" % n)
         for form in ("primal", "dual"):
-            add("hedge.reps2", dict(name=name, form=form), "hedge/molina-watrous/reps")
+            add("hedge.reps2", dict(name=name, form=form), "hedge/molina-watrous/reps-%s" % form)
     for n in (1, 2):
         for which in _HEDGE_METHODS:
             add("hedge.closed", dict(name="mw-q0", n=n, which=which), "hedge/molina-watrous/n=%d" % n)
@@ -668,8 +672,8 @@ def cases(tier, seed):
                     add("hedge.max_ge_min", dict(q, form="primal"), "hedge/random-%s/n=%d" % (fld, n))
                     add("hedge.max_ge_min", dict(q, form="dual"), "hedge/random-%s/n=%d" % (fld, n))
                 if i == 0 or thorough:
-                    add("hedge.reps2", dict(par, form="primal"), "hedge/random-%s/reps" % fld)
-                    add("hedge.reps2", dict(par, form="dual"), "hedge/random-%s/reps" % fld)
+                    add("hedge.reps2", dict(par, form="primal"), "hedge/random-%s/reps-primal" % fld)
+                    add("hedge.reps2", dict(par, form="dual"), "hedge/random-%s/reps-dual" % fld)
 
     # ------------------------------------------------------------------ cloning
     clone_bounds = ["clone.dual.ge", "clone.dual.le", "clone.primal.ge", "clone.primal.le"]
